@@ -36,6 +36,12 @@ CHECKS = {
   text="string, concat, starts-with, contains, substring-before/after, substring, string-length, normalize-space, translate, boolean, not, true, false, number, floor, ceiling, round, the operators + - * div mod and unary minus, and = != < <= > >= on scalar operands are executed symbolically from source: strings of exactly n <= 2 (quick) / 3 (thorough) scalar values, EVERY f64 and both booleans. On every path z3 decides equality with the XPath 1.0 result (sections 3.4, 3.5, 4.2-4.4: character counting, substring position rule incl. NaN/infinities, XML white space, round ties toward +inf and -0, IEEE arithmetic with signed zero, coercion rules, number() lexical form) and that no path panics. The function table's arity ranges are compared with section 4.",
   note="Outside: node-set operands, id(), lang(), name functions. Trusted: digits printed for finite non-zero numbers (Rust Display, never an exponent) and the value Rust's dec2flt assigns to an accepted numeral (integers of <= 9 digits are modelled exactly); `mod` is the same uninterpreted fmod on both sides; substring is decided with model::round abstracted, round itself by its own obligation. Known finding neg-zero-to-string is excluded from the inputs and re-witnessed each run.",
   design="4/C09", engine="S-kernel"),
+ "C11": dict(
+  technique="source-level symbolic execution (S-kernel) of XmlAttribute::normalized_value / normalize_ws / attr_value_from_name with an XML 1.0 3.3.3 spec interpreter in the same path exploration + SMT (z3); item graph replaced by stubs over a symbolic entity table; counterexamples replayed through Attr::value on a generated document",
+  category="model_checking",
+  text="For attribute values of <= 2 (quick) / 3 (thorough) pieces - text of 1-2 symbolic characters over all of Unicode, a character reference to ANY character, an entity reference - with entity tables of <= 2 entities (text, character references to tab / line feed / 'A', nested reference) and the declared types undeclared / CDATA / tokenized, z3 decides on every path that the normalized value equals the section 3.3.3 result (literal white space -> #x20, referenced characters unchanged, entity text normalized recursively, trim + collapse of #x20 only for non-CDATA types). A cyclic entity table must be refused, not recursed into.",
+  note="Partial: locating the ATTLIST declaration for an attribute, materialising defaulted attributes and the specified flag walk the item graph and are outside; ATTLIST parsing is covered by C01's dtd-attlist template; input line-end normalisation is not considered. Pieces, Context::entity and declaration_type are stubs (listed in the evidence).",
+  design="4/C11", engine="S-kernel"),
  "C15": dict(
   technique="source-level symbolic execution (S-kernel) of the DOM character-data mutators and name factories, with the validate-by-reparse checks executed through the S-grammar encoding of the real nom productions + SMT (z3); one inductive step from an arbitrary state of the capture-language invariant; counterexamples replayed through the DOM API with print + re-parse",
   category="model_checking",
@@ -67,7 +73,7 @@ m = {
            "baseline_off_cmd": "cd /repo && cargo test --workspace --no-fail-fast --offline", "source_commits": [], "add_only": True},
  "engines": [
   {"name": "S-grammar", "path": "engine/sx/nomsem.py", "serves_properties": ["C01", "C02", "C03", "C06", "C18"], "kind_free_text": "symbolic executor for the nom grammars read from /repo via engine/srcdump (syn); z3 QF_BV"},
-  {"name": "S-kernel", "path": "engine/sx/kernel.py", "serves_properties": ["C09", "C15", "C16"], "kind_free_text": "path-enumerating symbolic interpreter for small Rust functions read from the syn dump (engine/sx/kstd.py = std models); z3"},
+  {"name": "S-kernel", "path": "engine/sx/kernel.py", "serves_properties": ["C09", "C11", "C15", "C16"], "kind_free_text": "path-enumerating symbolic interpreter for small Rust functions read from the syn dump (engine/sx/kstd.py = std models); z3"},
   {"name": "Kani", "path": "kani/", "serves_properties": ["C18"], "kind_free_text": "Kani 0.68 / CBMC 6.11 harness crate with path dependencies on /repo crates"},
   {"name": "replay", "path": "replay/", "serves_properties": ["C01", "C02"], "kind_free_text": "Rust driver with path dependencies on /repo crates: replays solver models and validates the translator"},
  ],
